@@ -56,8 +56,13 @@ def drive_transformer(pkg, inst, text):
     d = object.__getattribute__(inst, "__dict__")
     rel, cls = d["_ri_rel"], d["_ri_cls"]
 
+    cdef = pkg.repo.classes.get((rel, cls))
+    # callbacks are the methods of the class and the class-level names bound to callables (`and_gate = partialmethod(...)`)
+    class_level = {t.id for st in (cdef.body if cdef is not None else ()) if isinstance(st, (ast.Assign, ast.AnnAssign)) and isinstance(getattr(st, "value", None), (ast.Call, ast.Name, ast.Lambda))
+                   for t in (st.targets if isinstance(st, ast.Assign) else [st.target]) if isinstance(t, ast.Name)}
+
     def has(name):
-        return (rel, f"{cls}.{name}") in pkg.repo.funcs
+        return (rel, f"{cls}.{name}") in pkg.repo.funcs or name in class_level
 
     from lark import Token
 
@@ -93,6 +98,15 @@ class MLark(Model):
 
     def parse(self, text, *a, **k):
         return drive_transformer(type(self)._pkg, self._transformer, text)
+
+    @classmethod
+    def open(cls, grammar_filename, rel_to=None, **options):
+        """Lark.open(path, **options): the grammar is read from the file."""
+        return cls(_open_grammar(grammar_filename), **options)
+
+    @classmethod
+    def open_from_package(cls, package, grammar_path, search_paths=("",), **options):
+        return cls(_open_grammar(grammar_path), **options)
 
 
 class _GrammarFile(Model):
